@@ -88,13 +88,14 @@ type PkgContracts struct {
 	Funcs   []*FuncSpec
 	ByKey   map[string]*FuncSpec
 	Imports []string // extra import lines
+	Ghosts  []string // ghost package-level variables: "name type"
 	Raw     string
 }
 
 var clauseKeywords = map[string]bool{
 	"func": true, "trusted": true, "pure": true, "inline": true, "ignore": true, "spec": true, "lemma": true, "import": true,
 	"requires": true, "ensures": true, "modifies": true, "loop": true, "arith": true, "overflow": true, "allow_panic": true,
-	"theory": true, "untrusted_input": true, "pragma": true, "assert": true, "note": true, "tparams": true,
+	"theory": true, "untrusted_input": true, "pragma": true, "assert": true, "note": true, "tparams": true, "ghost": true,
 }
 
 type rawClause struct {
@@ -289,6 +290,10 @@ func loadContracts(dir, pkgPath string) (*PkgContracts, error) {
 		case "import":
 			pc.Imports = append(pc.Imports, c.text)
 			continue
+		case "ghost":
+			pc.Ghosts = append(pc.Ghosts, strings.TrimSpace(strings.TrimPrefix(strings.TrimSpace(c.text), "var ")))
+			cur = nil
+			continue
 		case "func":
 			cur, err = newFunc(SKContract, "func "+c.text, c.line)
 		case "trusted":
@@ -439,9 +444,13 @@ func __is(err error, target error) bool { return true }
 func __ri(n int) int                    { return 0 }
 func __eq[T any](a, b T) bool           { return true }
 func __alloc[T any](x T) bool           { return true }
+func __ite[T any](c bool, a, b T) T     { return a }
 func __seen[K comparable](k K) bool     { return true }
 
 `)
+	for _, g := range pc.Ghosts {
+		fmt.Fprintf(&b, "var %s\n", g)
+	}
 	emit := func(name, tparams string, params []Param, ret string, c *Clause) error {
 		expr, err := rewriteSpec(c.Text)
 		if err != nil {
